@@ -4,6 +4,7 @@ package props
 // Lock-step state machine: memory, Secret and ConfigMap backends against a reference map.
 
 import (
+	"crypto/sha256"
 	"encoding/json"
 	"errors"
 	"fmt"
@@ -75,7 +76,7 @@ func genJSONValue(depth int) *rapid.Generator[interface{}] {
 		case 1:
 			return rapid.SampledFrom([]string{"", "x", "é✓", "a\nb", "true", "1", "null", "<&>", " "}).Draw(t, "s")
 		case 2:
-			return rapid.Int64Range(-(1 << 53), 1<<53).Draw(t, "i") // integers a JSON number holds exactly
+			return rapid.Int64Range(-(1<<53), 1<<53).Draw(t, "i") // integers a JSON number holds exactly
 		case 3:
 			return rapid.Bool().Draw(t, "b")
 		case 4:
@@ -140,17 +141,13 @@ func genBytes(max int) *rapid.Generator[[]byte] {
 
 func genManifest() *rapid.Generator[string] {
 	return rapid.Custom(func(t *rapid.T) string {
-		switch rapid.IntRange(0, 29).Draw(t, "mk") {
-		case 0, 3, 4:
+		switch rapid.IntRange(0, 59).Draw(t, "mk") {
+		case 0, 3, 4, 7, 8, 9:
 			return ""
 		case 1:
-			// large and compressible (the Secret payload is gzipped): ~1 MB in the thorough tier, ~250 KB in quick
-			n := 5000
-			if vt.Thorough() {
-				n = 20000
-			}
-			return strings.Repeat("apiVersion: v1\nkind: ConfigMap\nmetadata:\n  name: é✓\n---\n", n)
-		case 2, 5, 6:
+			// large and compressible (the Secret payload is gzipped): ~1.2 MB, above the 1 MiB object limit when uncompressed
+			return strings.Repeat("apiVersion: v1\nkind: ConfigMap\nmetadata:\n  name: é✓\n---\n", 21000)
+		case 2, 5, 6, 10, 11, 12:
 			return rapid.String().Draw(t, "m")
 		default:
 			return "---\n# Source: x\napiVersion: v1\nkind: ConfigMap\nmetadata:\n  name: " + rapid.SampledFrom([]string{"a", "b", "ü"}).Draw(t, "n") + "\n"
@@ -261,7 +258,12 @@ func c10Canon(r *release.Release) string {
 	if r == nil {
 		return "<nil>"
 	}
-	b, err := json.Marshal(r)
+	cp := *r
+	if len(cp.Manifest) > 4096 { // compare large manifests by digest + length
+		sum := sha256.Sum256([]byte(cp.Manifest))
+		cp.Manifest = fmt.Sprintf("sha256:%x/%d", sum, len(r.Manifest))
+	}
+	b, err := json.Marshal(&cp)
 	if err != nil {
 		return "<marshal error: " + err.Error() + ">"
 	}
@@ -418,6 +420,22 @@ func c10Prop(t *rapid.T) {
 		}
 	}
 
+	step := 0
+	// scan: every backend holds exactly the model's keys with the model's content
+	scan := func() {
+		var want []c10Key
+		for k := range model {
+			want = append(want, k)
+		}
+		for _, b := range backs {
+			got, err := b.st.ListReleases()
+			if err != nil {
+				fail("C10:scan/list-fails/"+b.name, err.Error())
+				continue
+			}
+			checkSet("scan", b.name, got, want)
+		}
+	}
 	t.Repeat(map[string]func(*rapid.T){
 		"create": func(t *rapid.T) {
 			k := drawKey(t)
@@ -613,21 +631,14 @@ func c10Prop(t *rapid.T) {
 			}
 		},
 		"": func(t *rapid.T) {
-			// full scan: every backend holds exactly the model's keys with the model's content
-			var want []c10Key
-			for k := range model {
-				want = append(want, k)
-			}
-			for _, b := range backs {
-				got, err := b.st.ListReleases()
-				if err != nil {
-					fail("C10:scan/list-fails/"+b.name, err.Error())
-					continue
-				}
-				checkSet("scan", b.name, got, want)
+			// full scan every 5th step (and once more at the end of the sequence)
+			step++
+			if step%5 == 0 {
+				scan()
 			}
 		},
 	})
+	scan()
 	lbls := []string{}
 	if sawPrecondFail {
 		lbls = append(lbls, "failing-precondition-call")
